@@ -9,9 +9,11 @@ recomputes I1..I7 from public accessors after every prefix.
 MODEL.  Heap split by relationship: io_st (inputs<->uses), po_st (outputs<->producer/index), ng_st (node.graph<->node
 sequence), ow_st (name/owner/flags <-> graph inputs/outputs/initializers + ref counters), nm_st (node names, name
 authority, counters).  step : cfg -> heap -> op -> heap * res unit; the heap returned with Raise is the partially
-mutated state the Python code leaves behind.  cfg : site -> bool says for each of the 11 defect sites whether its
-repair is applied; `current_cfg` (bottom of Model.v) is THE definition to edit when a fix lands (all false today);
-beside every site the repaired behaviour is the `c S... = true` branch.
+mutated state the Python code leaves behind.  cfg : site -> bool says for each of the 12 defect sites whether its
+repair is applied; `current_cfg` (bottom of Model.v) is THE definition to edit when a fix lands; beside every site the
+repaired behaviour is the `c S... = true` branch.  STATE: /repo c5c2382 + dff454e repaired 10 sites (current_cfg = true
+there); open: SNodeOutputsOwned (graph input / initializer accepted as node output) and SGraphNew.  `original_cfg`
+(all false) is the code before the repairs.
 
 THEOREMS (all closed under the global context):
   C01_inv_init
@@ -22,12 +24,13 @@ THEOREMS (all closed under the global context):
                                    (`clean` = the history never takes a branch on which the current code differs from the
                                    repaired code, i.e. avoids exactly the known sites; Example demo_clean shows non-vacuity
                                    with a value that is input + output twice + initializer, 3 graphs, 3 rejected calls)
-  C01_<site>_refuted x10           vm_compute witnesses at SIODelItem SIOIMul SIOExtend SIOInsert SIOSetItem SInitSetItem
-                                   SGExtend SGInsert SNodeOutputs SGraphNew, each replayed on the implementation
-                                   (known_findings.d/C01.json)
+  C01_nodeoutputs_refuted, C01_graphnew_refuted      the two OPEN sites, about current_cfg, replayed on the implementation
+  C01_<site>_refuted_before_fix x9 the repaired sites (SIODelItem SIOIMul SIOExtend SIOInsert SIOSetItem SInitSetItem
+                                   SGExtend SGInsert SNodeOutputsDup), about original_cfg; Example repaired_witnesses_clean:
+                                   the same witnesses are now clean histories of current_cfg (they are corpus cases)
   C01_outputs_reachable_fixed      forall ops, I2 (run all_fixed ops empty)  -- I2 = outputs <-> producer/index, whole alphabet
   C01_outputs_reachable            forall ops, clean current_cfg ops -> I2 (run current_cfg ops empty)
-  C01_nodeoutputs_dup_refuted      Node(outputs=[x, x]) breaks I2
+  C01_nodeoutputs_dup_refuted_before_fix   Node(outputs=[x, x]) broke I2 (repaired by dff454e)
 PARTIAL, what is missing: (1) for I3..I7 `in_scope` excludes Graph(...) called WITH arguments (the constructor with
 empty collections followed by the tracked mutators is in scope; I1 and I2 are proved without that restriction);
 (2) no general boolean inv_b: the refutations use clause-specific boolean consequences (need_listed, need_flag, ...);
@@ -49,7 +52,9 @@ len() and reversed().  I7 is read on the public `Value.graph` property (falls ba
 in no collection and without producer reports None; a value with a flag reports a graph.  Exception types are
 compared through common.exn_name.  Initializer keys: "" is never a key (added to I5).
 
-FINDINGS (genuine defects, reproduced on the implementation; proposed_fixes/C01-*.diff repair 10 of them, validated:
+FINDINGS (genuine defects, reproduced on the implementation; proposed_fixes/C01-*.diff repair 10 of them — LANDED as
+/repo c5c2382 and dff454e (minus the "graph input / initializer as node output" hunk), entries now status=fixed,
+witnesses moved to corpus/; still known: graph-ctor-partial, node-output-owned, init-ior-untracked — validated:
 578 tests of _core/_graph_containers/_convenience pass, and the tie run against the patched tree with the model
 switched to the repaired branches (VERIF_C01_FIXED=...) shows zero mismatches): see known_findings.d/C01.json.
 New relative to DESIGN §1: latent ref-count corruption by a rejected extend() that changes nothing visible
@@ -66,7 +71,8 @@ the generated histories; the correspondence also diverged):
   M5 Value.name setter not re-keying initializers       -> I5
   M6 _GraphIO.append appending before _set_graph        -> C06 (rejected append keeps the value)
   M7 resize_inputs shrink loop starting at new_size+1   -> I1
-Unchanged tree: exit 0 for VERIF_SEED 0,1,2,3 (KNOWN-FINDING lines only); quick 15-50 s wall.
+Unchanged tree: exit 0 for VERIF_SEED 0,1,2,3 (KNOWN-FINDING lines only); quick 15-50 s wall.  After the repairs
+landed: zero mismatches between the repaired tree and the model under the flipped current_cfg, seeds 0..3.
 """
 
 from __future__ import annotations
